@@ -6,6 +6,7 @@ from bitarray import bitarray
 
 import cellkit as ck
 import hmkit as hk
+import hmobjkit
 from drivers import c09
 from pytoniq_core.boc import Builder, Cell, Slice
 from pytoniq_core.boc.hashmap.hashmap import HashMap
@@ -25,7 +26,7 @@ ASSUMPTIONS = ['RefKind is a transcription of crypto/vm/dict.cpp append_dict_lab
                'triples whose label cannot fit a 1023-bit cell are not storable and are skipped']
 
 
-def model_checks(tier):
+def _model_checks(tier):
     q = tier == 'quick'
     return [dict(name='hm3_g', module='MC_Hashmap.tla', gen=True, workers=4, cfg=hk.hm_cfg(3, range(8), 8, 'TRUE', invs=False)),
             dict(name='hm16_g', module='MC_Hashmap.tla', gen=True, workers=4,
@@ -33,6 +34,16 @@ def model_checks(tier):
             dict(name='hm_m', module='MC_Hashmap.tla', workers=8, timeout=1500, cfg=hk.hm_cfg(3, range(8), 128 if q else 1023, 'FALSE')),
             dict(name='hm16_m', module='MC_Hashmap.tla', workers=8, timeout=1500, cfg=hk.hm_cfg(16, [0, 1, 255, 256, 32768, 65535], 8, 'FALSE'))] + \
         ([] if q else [dict(name='hm4_m', module='MC_Hashmap.tla', workers=16, timeout=2400, cfg=hk.hm_cfg(4, range(16), 8, 'FALSE'))])
+
+
+def model_checks(tier):
+    import os
+    return _model_checks(tier) + hmobjkit.model_checks(tier, int(os.environ.get('VERIF_SEED', '0') or 0))
+
+
+def extra_generate(tier, seed, ctx, first_id):
+    # HashMap OBJECT histories (TLC-simulated behaviours of MC_HmObj + seeded random walks), validated against TonHmObj
+    return [('HmObjTrace.tla', hmobjkit.generate(tier, seed, ctx, first_id), hmobjkit.make_canaries)]
 
 
 def root_kind(n, m, same):
@@ -217,6 +228,9 @@ def canary(r, rng):
 
 
 def nontrivial_key(r):
+    if r['op'] in ('hmcall', 'reset'):
+        c = r.get('call')
+        return None if c is None or c['op'] not in ('ser', 'parse') else ('hm', repr(r['post']), c['op'], c.get('via'))
     if r['op'] == 'kinds':
         return ('kinds', r['m'])
     if r['op'] == 'parse_tree':
@@ -236,4 +250,5 @@ def extra_coverage(flat, ctx):
     return {'kind_triples_checked': triples, 'kinds_seen': kinds,
             'trees_parsed': sum(1 for r in flat if r['op'] == 'parse_tree'),
             'pruned_trees_parsed': sum(1 for r in flat if r['op'] == 'parse_tree' and r['pol'].endswith('_pruned')),
-            'parser_errors': sum(1 for r in flat if r['op'] == 'parse_tree' and 'err' in r['out'])}
+            'parser_errors': sum(1 for r in flat if r['op'] == 'parse_tree' and 'err' in r['out']),
+            'object_history_calls': sum(1 for r in flat if r['op'] == 'hmcall')}
